@@ -99,7 +99,7 @@ def run(ctx):
     quick = ctx.tier == "quick"
     progs = gramfam.family(ctx.tier, rnd)
     log("[C03] %d programs" % len(progs))
-    trees, lay = layouts(ctx, progs, ["dev1", "globals"], simulate=(400 if quick else 6000))
+    trees, lay = layouts(ctx, progs, ["dev1", "globals", "minbrace"], simulate=(400 if quick else 6000))
     if len(trees) != len(progs):
         raise common.NoVerdict("TLC emitted %d trees for %d programs" % (len(trees), len(progs)))
     seen = set(); cases = []
@@ -137,8 +137,8 @@ def run(ctx):
                     "handlers, statements, handlers; drawn from the hand-written grammar family and from the C02/C06/C07/C08/C09 families). For each program TLC computes Tree(prog) "
                     "(checked complete) and Tokens(prog), and the layout machine emits: the canonical rendering, EVERY rendering with exactly one deviation (synonym spelling, ASCII "
                     "punctuation, comparison / logic operators written without surrounding blanks, extra blank, /* */ comment, end-of-line // and 注： comments, blank line, comma before 且/或/得到, line break after 【 ， 、 { and before 】 }), all 6 "
-                    "combinations of indentation unit x line terminator, and %d simulated renderings with up to 5 deviations; every rendering is parsed by the real parser and the "
+                    "combinations of indentation unit x line terminator, the rendering with braces only where the documented precedence table requires them (MinBrace), and %d simulated renderings with up to 5 deviations; every rendering is parsed by the real parser and the "
                     "dumped tree must equal Tree(prog) (hence all renderings agree) and be complete" % (len(progs), 400 if quick else 6000),
                programs=len(progs), deviation_kinds=devkinds)
-    return cov, ["expressions are rendered with braces around compound operands (precedence without braces is C01's subject)",
+    return cov, ["expressions are rendered with braces around compound operands, except in the MinBrace rendering (grouping by the precedence table; the VALUES are C01's subject)",
                  "layout freedom is limited to the positions the manual exemplifies (DESIGN C03)", "identifier glyphs: ASCII names and the predefined Chinese names"]
